@@ -1009,6 +1009,12 @@ int main(int argc, char **argv) {
     return 0;
   }
   uint64_t s = (uint64_t)seed * 7919 + (uint64_t)shard * 104729;
+  if (A.has("only-rename")) {  // own process: an abort inside RenameMolecules must not take the other families down
+    vfh::Rng r(s + 18183);
+    run_rename(r, R, A.num("rename", nbead * 4), A.str("tmpdir", ""), shard);
+    R.summary();
+    return 0;
+  }
   { vfh::Rng r(s + 18); run_wild(r, R, shard, nshards, plen, slen, nrandom); }
   { vfh::Rng r(s + 181); run_range(r, R, shard, nshards, nmulti); }
   { vfh::Rng r(s + 1811); run_range_adjacent(r, R, shard, nshards, nmulti / 2 + 1); }
@@ -1017,7 +1023,7 @@ int main(int argc, char **argv) {
   { vfh::Rng r(s + 1819); run_index_reuse(r, R, nindex / 4 + 1); }
   { vfh::Rng r(s + 18181); run_beadlist(r, R, nbead); }
   { vfh::Rng r(s + 18182); run_beadlist2(r, R, nbead, A.str("tmpdir", ""), shard); }
-  { vfh::Rng r(s + 18183); run_rename(r, R, A.num("rename", nbead * 4), A.str("tmpdir", ""), shard); }
+  if (!A.has("skip-rename")) { vfh::Rng r(s + 18183); run_rename(r, R, A.num("rename", nbead * 4), A.str("tmpdir", ""), shard); }
   R.summary();
   return 0;
 }
